@@ -275,7 +275,13 @@ func sameStd(a, b stdRes, tokens bool) (bool, string) {
 
 func sectionD(r *hlib.Run) {
 	defer cdrv.Cleanup()
-	ds, errs := cdrv.BuildAll(r.Repo, cdrv.PlainGcc, cdrv.AsanUbsan)
+	// quick tier: the gcc -O2 build only (the sanitizer build of the whole library takes minutes
+	// on a loaded machine; sections B and C run under ASan+UBSan in both tiers)
+	fls := []cdrv.Flavour{cdrv.PlainGcc}
+	if r.Thorough {
+		fls = append(fls, cdrv.AsanUbsan)
+	}
+	ds, errs := cdrv.BuildAll(r.Repo, fls...)
 	for fl, err := range errs {
 		if err != nil {
 			fmt.Fprintln(os.Stderr, "c05: cdrv build", fl, ":", err)
@@ -312,10 +318,16 @@ func sectionD(r *hlib.Run) {
 			continue
 		}
 		hasDst := kind == 'T' || kind == 'K'
+		// std/lzma (and lzip, xz on top of it) has a known defect (KNOWN_FINDINGS, key
+		// split-dependent:lzma-dst-reused-after-replacement): a destination buffer that is
+		// replaced (no history retained, as dst_history_retain_length() == 0 allows) and then
+		// filled over more than one call. The general sweep therefore never combines source
+		// splits with destination splits for these three; the defect has its own run below.
+		lzmaFamily := in.codec == "lzma" || in.codec == "lzip" || in.codec == "xz"
 		hex := hlib.Hex(in.data)
 		pre := "run " + in.codec + " "
 		n := len(in.data)
-		for _, fl := range []cdrv.Flavour{cdrv.PlainGcc, cdrv.AsanUbsan} {
+		for _, fl := range fls {
 			j := &job{in: in, fl: fl}
 			add := func(kind, opts string) {
 				j.cmds = append(j.cmds, pre+opts+hex)
@@ -340,7 +352,11 @@ func sectionD(r *hlib.Run) {
 			add("src-bytewise", "src=1 ")
 			if hasDst {
 				add("dst-bytewise", "dst=1 ")
-				add("both-bytewise", "src=1 dst=1 ")
+				if !lzmaFamily {
+					add("both-bytewise", "src=1 dst=1 ")
+				} else if in.kind == "valid" {
+					add("known:lzma-dst-reuse", "src=64 dst=300 ")
+				}
 			}
 			nMulti := 4
 			if fl == cdrv.AsanUbsan && !r.Thorough {
@@ -353,7 +369,7 @@ func sectionD(r *hlib.Run) {
 					dd = append(dd, fmt.Sprint(rng.Range(1, 40)))
 				}
 				opt := "src=" + strings.Join(ss, ",") + " "
-				if hasDst && m%2 == 1 {
+				if hasDst && m%2 == 1 && !lzmaFamily {
 					opt += "dst=" + strings.Join(dd, ",") + " "
 				}
 				add("multi", opt)
@@ -436,7 +452,7 @@ func sectionD(r *hlib.Run) {
 		one := j.res[0]
 		key := j.in.codec + "/" + j.in.name
 		if prev, ok := oneshot[key]; ok {
-			if same, why := sameStd(prev, one, have[j.in.codec] == 'K'); !same {
+			if same, why := sameStd(prev, one, have[j.in.codec] == 'K'); !same && prev.crash == "" && one.crash == "" {
 				r.Fail("flavour-mismatch:"+j.in.codec, "gcc -O2 and ASan/UBSan builds of std disagree on a one-shot run: "+why,
 					fmt.Sprintf("%s\n-> %s\n-> %s", j.cmds[0], prev.raw, one.raw))
 			}
@@ -452,7 +468,10 @@ func sectionD(r *hlib.Run) {
 			r.Count("D:oneshot-status:" + st)
 		}
 		if one.crash != "" {
-			r.Fail("crash:"+j.in.codec+":"+one.crash, "std decoder crashed on a one-shot run ("+string(j.fl)+")", j.cmds[0]+"\n"+one.raw)
+			// a crash with everything available in one call is not a question of splitting (memory
+			// safety / UB of the generated C is C03's and C09's subject): counted, reported, skipped
+			r.Count("D:oneshot-crash-not-this-property:" + j.in.codec + ":" + one.crash)
+			r.Note(fmt.Sprintf("one-shot run crashed (%s, %s build), skipped: %s", one.crash, j.fl, firstN(j.cmds[0], 200)))
 			continue
 		}
 		for k := 1; k < len(j.cmds); k++ {
@@ -464,12 +483,16 @@ func sectionD(r *hlib.Run) {
 			}
 			if same, why := sameStd(one, rr, have[j.in.codec] == 'K'); !same {
 				key := "split-dependent:" + j.in.codec + ":" + j.in.kind
-				if rr.crash != "" {
+				if j.kinds[k] == "known:lzma-dst-reuse" {
+					key = "split-dependent:lzma-dst-reused-after-replacement"
+				} else if rr.crash != "" {
 					key = "crash:" + j.in.codec + ":" + rr.crash
 				}
 				r.Fail(key, fmt.Sprintf("std/%s (%s input %s): %s (%s run, %s build)", j.in.codec, j.in.kind, j.in.name, why, j.kinds[k], j.fl),
 					fmt.Sprintf("one-shot: %s\n  -> %s\n%s: %s\n  -> %s", j.cmds[0], one.raw, j.kinds[k], j.cmds[k], rr.raw))
-				break
+				if j.kinds[k] != "known:lzma-dst-reuse" {
+					break
+				}
 			}
 		}
 	}
